@@ -186,6 +186,7 @@ func ruleVD5(c *Ctx) {
 		return
 	}
 	n := 0
+	c.edgeInsertingTypesGuarded(hc)
 	for _, em := range c.emissions() {
 		if !(em.has("link") || em.has("unlink")) || c.isReplayOrCompact(em.Fn) {
 			continue
